@@ -215,6 +215,12 @@ def project(d, jac, c):
     except (ZeroDivisionError, ValueError, OverflowError, KeyError, FloatingPointError) as e:
         detail["oracle_skipped"] = repr(e)[:120]
         ev["match"] = "skip"
+    outs = [x2] + ([P2] if kind != "model" else [])
+    if ev["match"] == "skip" and not all(np.all(np.isfinite(o)) for o in outs):
+        # a non-finite result that the oracle cannot attribute (the point is outside the model's domain -- 1/x at 0 -- or the
+        # definition is outside the tree language): the properties quantify over points where the model is defined; no claim
+        ev["claim"] = False
+        detail["no_claim"] = "non-finite output without an oracle verdict"
     return ev, detail
 
 
